@@ -120,6 +120,8 @@ type Program struct {
 	SrcPrefix string `json:"src_prefix,omitempty"`
 	// Explicit lists outputs that get an explicit outputSchema {x: integer} with the given error flag.
 	Explicit map[string]bool `json:"explicit,omitempty"`
+	// DefaultM replaces the declared default of the optional integer input field m (YAML text).
+	DefaultM string `json:"default_m,omitempty"`
 }
 
 // Src is the plugin source of a step.
@@ -409,6 +411,8 @@ func (p *Program) YAML() string {
 	b.WriteString("version: v0.2.0\n")
 	if p.Item {
 		b.WriteString(itemInputSchema)
+	} else if p.DefaultM != "" {
+		b.WriteString(strings.Replace(rootInputSchema, `default: "7"`, "default: "+p.DefaultM, 1))
 	} else {
 		b.WriteString(rootInputSchema)
 	}
